@@ -275,7 +275,7 @@ class StmtMixin(CallMixin):
             star = tgt.elts[si].value
             for o in os_:
                 if not (isinstance(star, ast.Name) and star.id == "_"):
-                    rest = s.slice_seq(o.path, v, sv_int(len(before)), sv_int(ln - len(after)), None, tgt)
+                    rest = s.slice_seq(o.path, v, sv_int(len(before)), sv_int(ln - len(after)), None, tgt, kind_override="list")   # *rest is always a list
                     s.assign(star, rest, o.path)
             outs += os_
         if bad is not None:
@@ -821,6 +821,10 @@ class StmtMixin(CallMixin):
         nn, elem, static = s.iter_desc(p, it, n)
         if static is not None and len(static) <= 8:
             return s.unroll_for(n, p, static)
+        if s.unit.options.get("unroll_concrete"):        # engine self-test: concrete-length inputs are simply unrolled
+            cn = z3.simplify(nn)
+            if z3.is_int_value(cn) and cn.as_long() <= 16:
+                return s.unroll_for(n, p, [elem(p, IntVal(k_)) for k_ in range(cn.as_long())])
         if inv is None:
             raise Unsupported(f"loop {s.func_stack[-1].name}:{key} has no invariant")
         kw = dict(k=IntVal(0), seq=it)
